@@ -42,6 +42,15 @@ class Module:
             self.tree = ast.parse(source, filename=str(path))
         except SyntaxError as e:  # pragma: no cover
             raise AnalysisError(f"cannot parse {rel}: {e}")
+        # renamed locals are translated back to the names the rules were written against (sa/renames.py); alpha-renaming is
+        # behaviour-preserving, the table decides nothing
+        self.renamed = []
+        if not os.environ.get("VERIF_NO_RENAMES"):
+            from . import renames
+            try:
+                self.renamed = renames.normalise_module(name, self.tree)
+            except Exception:           # the normaliser is an aid, never a reason to fail
+                self.renamed = []
         for node in ast.walk(self.tree):
             for ch in ast.iter_child_nodes(node):
                 ch._parent = node  # type: ignore[attr-defined]
